@@ -441,8 +441,15 @@ class Runner:
     def run(self, prog):
         out = []
         for s in prog:
+            before = dict(self.regs)
             try:
-                out.append(self.step(s))
+                o = self.step(s)
+                if s["s"] not in ("layer", "read", "query") and s.get("r") in self.regs:
+                    new = self.regs[s["r"]]
+                    for k, old in before.items():
+                        if new is old:      # C13: a result is never one of the operands / existing objects
+                            o = {"t": "err", "e": "other", "type": "Alias", "msg": f"result of {s['s']} is the object in register {k}"}
+                out.append(o)
             except Exception as exc:  # noqa
                 out.append(err_obs(exc))
         return out
